@@ -80,6 +80,23 @@ Theorem C01_fix_conservative : forall comp, no_bs_eq comp = true -> split_kv tru
 Proof. exact split_kv_fix_same. Qed.
 Print Assumptions C01_fix_conservative.
 
+(* Storage (WriteColumnarRecord -> Parquet): whatever column the buffer ACCEPTS is stored with
+   exactly the written values and their types (a null where the point has no such key); an
+   unsigned value is never stored as a different number ... *)
+Theorem C01_store_exact : forall name cells out,
+  store_column name cells = COk out -> Forall2 cell_exact cells out.
+Proof. exact store_column_exact. Qed.
+Print Assumptions C01_store_exact.
+
+(* ... because a column of unsigned values one of which exceeds MaxInt64 is refused *)
+Theorem C01_store_unsigned_overflow_refused : forall name cells z,
+  bytes_eqb name s_time = false ->
+  (forall c, In c cells -> exists u, c = Some (VUint u)) ->
+  In (Some (VUint z)) cells -> (max_i64 < z)%Z ->
+  store_column name cells = CReject.
+Proof. exact store_column_uint_overflow. Qed.
+Print Assumptions C01_store_unsigned_overflow_refused.
+
 (* ---- non-vacuity ---- *)
 
 (* a point with every escapable byte in measurement, tag key, tag value, field key and string
@@ -112,4 +129,9 @@ Proof. vm_compute. reflexivity. Qed.
 Example C01_columnar_satisfiable :
   let rs := parse_batch (fun _ => true) true [] (encode_batch false false [w_tag; w_field; ex_point]) in
   forallb wf_record rs = true /\ length (batch_to_columnar rs) = 2%nat.
+Proof. vm_compute. split; reflexivity. Qed.
+
+Example C01_store_satisfiable :
+  store_column [118] [Some (VUint 42); None; Some (VUint 9223372036854775807)] = COk [SInt 42; SNull; SInt 9223372036854775807]
+  /\ store_column [118] [Some (VUint 42); Some (VUint 18446744073709551615)] = CReject.
 Proof. vm_compute. split; reflexivity. Qed.
